@@ -483,7 +483,7 @@ theorem safety_under_faults_C09 (s s1 : JobCtl.Sys) (jo : JobObj) (rj : Furiko.J
     (idx : PIndex) (retry : Int) (p : PodObj) (t : Furiko.Task)
     (hc : apiCreatePod s jo idx retry = (s1, .exists))
     (hp : findPod s1.podCache (taskName jo.name idx.hash retry) = some p)
-    (hown : p.ownerUid = some jo.uid) (ht : podTask p = some t) :
+    (hown : p.ownerUid = some jo.uid) (ht : podTask s.clock p = some t) :
     syncCreateTask s jo rj tasks idx retry = (s1, some (rj, tasks ++ [t])) ∧ s1.pods = s.pods :=
   C09.adopt_not_duplicate s s1 jo rj tasks idx retry p t hc hp hown ht
 
